@@ -17,6 +17,7 @@ import (
 	"go/token"
 	"go/types"
 	"math/big"
+	"os"
 	"sort"
 	"strings"
 
@@ -38,6 +39,7 @@ const (
 	opXor
 	opMux
 	opTop
+	opApp // bit idx of an uninterpreted table lookup src[kids]; kids = index bits, LSB first
 )
 
 type Node struct {
@@ -46,6 +48,7 @@ type Node struct {
 	src     string
 	idx     int
 	id      int
+	kids    []*Node
 }
 
 type TermTable struct {
@@ -71,6 +74,13 @@ func (t *TermTable) mk(n *Node) *Node {
 		k = fmt.Sprintf("s|%s|%d", n.src, n.idx)
 	case opTop:
 		k = fmt.Sprintf("t|%d", t.next)
+	case opApp:
+		var sb strings.Builder
+		fmt.Fprintf(&sb, "a|%s|%d", n.src, n.idx)
+		for _, c := range n.kids {
+			fmt.Fprintf(&sb, "|%d", c.id)
+		}
+		k = sb.String()
 	default:
 		ai, bi, ci := -1, -1, -1
 		if n.a != nil {
@@ -95,6 +105,12 @@ func (t *TermTable) mk(n *Node) *Node {
 
 func (t *TermTable) Src(name string, idx int) *Node { return t.mk(&Node{op: opSrc, src: name, idx: idx}) }
 func (t *TermTable) Top() *Node                     { return t.mk(&Node{op: opTop}) }
+
+// App is bit `bit` of the table `table` read at the index whose bits are idx (an uninterpreted
+// function of the index; the table contents are checked separately).
+func (t *TermTable) App(table string, bit int, idx []*Node) *Node {
+	return t.mk(&Node{op: opApp, src: table, idx: bit, kids: append([]*Node(nil), idx...)})
+}
 func (t *TermTable) Const(b bool) *Node {
 	if b {
 		return t.one
@@ -236,6 +252,32 @@ func (t *TermTable) Mux(c, a, b *Node) *Node {
 	return t.mk(&Node{op: opMux, a: a, b: b, c: c})
 }
 
+// Short prints the term down to the given depth (the DAG printed as a tree can be exponential).
+func (n *Node) Short(depth int) string {
+	if depth <= 0 && n.op != opZero && n.op != opOne && n.op != opSrc {
+		return "…"
+	}
+	switch n.op {
+	case opNot:
+		return "¬" + n.a.Short(depth)
+	case opAnd:
+		return "(" + n.a.Short(depth-1) + "&" + n.b.Short(depth-1) + ")"
+	case opOr:
+		return "(" + n.a.Short(depth-1) + "|" + n.b.Short(depth-1) + ")"
+	case opXor:
+		return "(" + n.a.Short(depth-1) + "^" + n.b.Short(depth-1) + ")"
+	case opMux:
+		return "mux(" + n.c.Short(depth-1) + "," + n.a.Short(depth-1) + "," + n.b.Short(depth-1) + ")"
+	case opApp:
+		var ks []string
+		for i := len(n.kids) - 1; i >= 0; i-- {
+			ks = append(ks, n.kids[i].Short(depth-1))
+		}
+		return fmt.Sprintf("%s[%s].%d", n.src, strings.Join(ks, " "), n.idx)
+	}
+	return n.String()
+}
+
 func (n *Node) String() string {
 	switch n.op {
 	case opZero:
@@ -254,6 +296,12 @@ func (n *Node) String() string {
 		return "(" + n.a.String() + "^" + n.b.String() + ")"
 	case opMux:
 		return "mux(" + n.c.String() + "," + n.a.String() + "," + n.b.String() + ")"
+	case opApp:
+		var ks []string
+		for i := len(n.kids) - 1; i >= 0; i-- {
+			ks = append(ks, n.kids[i].String())
+		}
+		return fmt.Sprintf("%s[%s].%d", n.src, strings.Join(ks, " "), n.idx)
 	}
 	return "⊤"
 }
@@ -322,7 +370,10 @@ type MemObj struct {
 type Ptr struct {
 	Obj  *MemObj
 	Path string
+	Sym  *symIdx // when set: Path ends in "[?]" and Sym holds the index bits (read-only table lookup)
 }
+
+type symIdx struct{ bits []*Node }
 
 type SliceV struct {
 	Obj  *MemObj
@@ -349,6 +400,12 @@ type OpaqueV struct{ Why string }
 type FuncV struct{ Fn *ssa.Function }
 type NilV struct{}
 
+// HandleV: an opaque non-nil object produced by a model (a cipher block, a stream, ...).
+type HandleV struct {
+	Kind string
+	ID   int
+}
+
 type Value interface{}
 
 // ---------------------------------------------------------------------------------------------
@@ -367,6 +424,9 @@ type Interp struct {
 	nest     int // current if-conversion nesting
 	pdom     map[*ssa.Function]map[*ssa.BasicBlock]*ssa.BasicBlock
 	Models   map[string]func(it *Interp, st *state, call *ssa.CallCommon, args []Value) (Value, bool)
+	// ReadOnlyTables names the global objects ("global:sr") that may be read at a symbolic index;
+	// such a read is an uninterpreted function of the index bits (opApp).
+	ReadOnlyTables map[string]bool
 }
 
 func NewInterp(w *World) *Interp {
@@ -509,17 +569,29 @@ func (it *Interp) putAgg(a AggV, path string, v Value) {
 
 // load reads a value of type t at obj/path.
 func (it *Interp) load(st *state, p Ptr, t types.Type) Value {
+	if p.Sym != nil {
+		w, sg, ok := typeWidth(t)
+		if !ok {
+			it.unsup("table lookup of a non-integer element in %s", p.Obj.Name)
+			return OpaqueV{"table"}
+		}
+		r := BV{W: w, B: make([]*Node, w), Signed: sg}
+		for i := range r.B {
+			r.B[i] = it.T.App(p.Obj.Name+p.Path, i, p.Sym.bits)
+		}
+		return r
+	}
 	switch u := t.Underlying().(type) {
 	case *types.Array:
 		a := AggV{Cells: map[string]Value{}}
 		for i := 0; i < int(u.Len()); i++ {
-			it.putAgg(a, fmt.Sprintf("[%d]", i), it.load(st, Ptr{p.Obj, p.Path + fmt.Sprintf("[%d]", i)}, u.Elem()))
+			it.putAgg(a, fmt.Sprintf("[%d]", i), it.load(st, Ptr{Obj: p.Obj, Path: p.Path + fmt.Sprintf("[%d]", i)}, u.Elem()))
 		}
 		return a
 	case *types.Struct:
 		a := AggV{Cells: map[string]Value{}}
 		for i := 0; i < u.NumFields(); i++ {
-			it.putAgg(a, "."+u.Field(i).Name(), it.load(st, Ptr{p.Obj, p.Path + "." + u.Field(i).Name()}, u.Field(i).Type()))
+			it.putAgg(a, "."+u.Field(i).Name(), it.load(st, Ptr{Obj: p.Obj, Path: p.Path + "." + u.Field(i).Name()}, u.Field(i).Type()))
 		}
 		return a
 	}
@@ -558,6 +630,10 @@ func (it *Interp) load(st *state, p Ptr, t types.Type) Value {
 }
 
 func (it *Interp) store(st *state, p Ptr, v Value) {
+	if p.Sym != nil {
+		it.unsup("store through a symbolic table index into %s", p.Obj.Name)
+		return
+	}
 	if st.mem[p.Obj] == nil {
 		st.mem[p.Obj] = map[string]Value{}
 	}
@@ -762,6 +838,9 @@ func (it *Interp) run(fn *ssa.Function, b, prev, until *ssa.BasicBlock, st *stat
 				case opZero:
 					next = b.Succs[1]
 				default:
+					if os.Getenv("NASVERIF_DEBUG") == "branch" {
+						fmt.Fprintf(os.Stderr, "[e2] symbolic branch in %s block %d on %s = %s\n", fn.Name(), b.Index, x.Cond.Name(), cb.B[0].Short(5))
+					}
 					j := it.ipdom(fn)[b]
 					it.nest++
 					if it.nest > 40 {
@@ -1095,7 +1174,7 @@ func (it *Interp) step(st *state, ins ssa.Instruction, depth int) {
 			return
 		}
 		stt := x.X.Type().Underlying().(*types.Pointer).Elem().Underlying().(*types.Struct)
-		st.regs[x] = Ptr{p.Obj, p.Path + "." + stt.Field(x.Field).Name()}
+		st.regs[x] = Ptr{Obj: p.Obj, Path: p.Path + "." + stt.Field(x.Field).Name()}
 	case *ssa.Field:
 		a, ok := it.val(st, x.X).(AggV)
 		if !ok {
@@ -1107,20 +1186,26 @@ func (it *Interp) step(st *state, ins ssa.Instruction, depth int) {
 	case *ssa.IndexAddr:
 		idx, ok := it.concreteInt(it.val(st, x.Index))
 		if !ok {
+			if p, isPtr := it.val(st, x.X).(Ptr); isPtr && p.Sym == nil && it.ReadOnlyTables[p.Obj.Name] {
+				if bits, ok := it.tableIndex(st, x); ok {
+					st.regs[x] = Ptr{Obj: p.Obj, Path: p.Path + "[?]", Sym: &symIdx{bits}}
+					return
+				}
+			}
 			it.unsup("symbolic index in %s", x.Parent().String())
 			st.regs[x] = OpaqueV{"symbolic index"}
 			return
 		}
 		switch b := it.val(st, x.X).(type) {
 		case Ptr: // pointer to array
-			st.regs[x] = Ptr{b.Obj, b.Path + fmt.Sprintf("[%d]", idx)}
+			st.regs[x] = Ptr{Obj: b.Obj, Path: b.Path + fmt.Sprintf("[%d]", idx)}
 		case SliceV:
 			if b.Nil || b.Obj == nil {
 				it.unsup("index of nil slice in %s", x.Parent().String())
 				st.regs[x] = OpaqueV{"nil slice"}
 				return
 			}
-			st.regs[x] = Ptr{b.Obj, b.Path + fmt.Sprintf("[%d]", b.Lo+idx)}
+			st.regs[x] = Ptr{Obj: b.Obj, Path: b.Path + fmt.Sprintf("[%d]", b.Lo+idx)}
 		default:
 			it.unsup("index of unsupported value in %s", x.Parent().String())
 			st.regs[x] = OpaqueV{"indexaddr"}
@@ -1519,6 +1604,12 @@ func (it *Interp) binop(x *ssa.BinOp, a, b Value) Value {
 		case token.EQL, token.NEQ:
 			_, an := a.(NilV)
 			_, bn := b.(NilV)
+			if sa, ok := a.(SliceV); ok && sa.Nil && sa.Obj == nil {
+				an = true
+			}
+			if sb, ok := b.(SliceV); ok && sb.Nil && sb.Obj == nil {
+				bn = true
+			}
 			eq := -1
 			if an && bn {
 				eq = 1
@@ -1528,7 +1619,7 @@ func (it *Interp) binop(x *ssa.BinOp, a, b Value) Value {
 					o = b
 				}
 				switch q := o.(type) {
-				case Ptr:
+				case Ptr, HandleV:
 					eq = 0
 				case SliceV:
 					if q.Nil {
@@ -1720,6 +1811,30 @@ func (it *Interp) binop(x *ssa.BinOp, a, b Value) Value {
 				}
 			}
 		}
+		// general ordering comparison: ripple comparator (signed: compare with the sign bits flipped)
+		if len(av.B) == len(bv.B) && len(av.B) > 0 && !av.HasTop() && !bv.HasTop() {
+			a2, b2 := av, bv
+			if av.Signed {
+				a2 = BV{W: av.W, B: append([]*Node(nil), av.B...)}
+				b2 = BV{W: bv.W, B: append([]*Node(nil), bv.B...)}
+				a2.B[av.W-1] = it.T.Not(a2.B[av.W-1])
+				b2.B[bv.W-1] = it.T.Not(b2.B[bv.W-1])
+			}
+			var r *Node
+			switch x.Op {
+			case token.LSS:
+				r = it.ult(a2, b2)
+			case token.GTR:
+				r = it.ult(b2, a2)
+			case token.LEQ:
+				r = it.T.Not(it.ult(b2, a2))
+			case token.GEQ:
+				r = it.T.Not(it.ult(a2, b2))
+			}
+			if r != nil {
+				return BV{W: 1, B: []*Node{r}}
+			}
+		}
 		return BV{W: 1, B: []*Node{it.T.Top()}}
 	}
 	it.unsup("binary op %s", x.Op)
@@ -1727,6 +1842,16 @@ func (it *Interp) binop(x *ssa.BinOp, a, b Value) Value {
 		return it.topBV(w)
 	}
 	return OpaqueV{"binop"}
+}
+
+// ult: a < b, unsigned.
+func (it *Interp) ult(a, b BV) *Node {
+	lt := it.T.zero
+	for i := 0; i < a.W; i++ {
+		eq := it.T.Not(it.T.Xor(a.B[i], b.B[i]))
+		lt = it.T.Or(it.T.And(it.T.Not(a.B[i]), b.B[i]), it.T.And(eq, lt))
+	}
+	return lt
 }
 
 func toSigned(c uint64, v BV) int64 {
@@ -1800,6 +1925,14 @@ func (it *Interp) call(st *state, x *ssa.Call, c *ssa.CallCommon, depth int) Val
 		it.unsup("builtin %s", b.Name())
 		return OpaqueV{"builtin"}
 	}
+	if c.IsInvoke() {
+		// interface method call: only through a registered model
+		if m, ok := it.Models["invoke:"+c.Method.FullName()]; ok {
+			if v, ok := m(it, st, c, append([]Value{it.val(st, c.Value)}, args...)); ok {
+				return v
+			}
+		}
+	}
 	callee := c.StaticCallee()
 	if callee == nil {
 		it.unsup("dynamic call in %s", x.Parent().String())
@@ -1833,7 +1966,7 @@ func (it *Interp) call(st *state, x *ssa.Call, c *ssa.CallCommon, depth int) Val
 func (v BV) signed() BV { v.Signed = true; return v }
 
 func (it *Interp) sliceElemPtr(s SliceV, i int) Ptr {
-	return Ptr{s.Obj, s.Path + fmt.Sprintf("[%d]", s.Lo+i)}
+	return Ptr{Obj: s.Obj, Path: s.Path + fmt.Sprintf("[%d]", s.Lo+i)}
 }
 
 func (it *Interp) copyBuiltin(st *state, args []Value, x *ssa.Call) Value {
@@ -2018,6 +2151,41 @@ func (it *Interp) stdModel(st *state, name string, c *ssa.CallCommon, args []Val
 
 // ---------------------------------------------------------------------------------------------
 // helpers for property code
+
+// tableIndex returns the index bits of a lookup into a power-of-two sized array when the
+// higher index bits are provably zero (so that the access cannot be out of range).
+func (it *Interp) tableIndex(st *state, x *ssa.IndexAddr) ([]*Node, bool) {
+	pt, ok := x.X.Type().Underlying().(*types.Pointer)
+	if !ok {
+		return nil, false
+	}
+	arr, ok := pt.Elem().Underlying().(*types.Array)
+	if !ok {
+		return nil, false
+	}
+	n := int(arr.Len())
+	k := 0
+	for 1<<uint(k) < n {
+		k++
+	}
+	if 1<<uint(k) != n {
+		return nil, false
+	}
+	idx, ok := it.val(st, x.Index).(BV)
+	if !ok || idx.HasTop() {
+		return nil, false
+	}
+	for i := k; i < idx.W; i++ {
+		if idx.B[i].op != opZero {
+			it.unsup("table index not provably below %d in %s", n, x.Parent().String())
+			return nil, false
+		}
+	}
+	if k > idx.W {
+		k = idx.W
+	}
+	return idx.B[:k], true
+}
 
 // SymbolicReceiver creates a lazy object standing for *recv before the call.
 func (it *Interp) SymbolicObj(name string) (*MemObj, Ptr) {
